@@ -42,7 +42,7 @@ type mcRun struct {
 
 var lastMC = map[string]*mcRun{}
 
-var rePlaceholder = regexp.MustCompile(`^(N|P|C|G)_[0-9a-z]+$`)
+var rePlaceholder = regexp.MustCompile(`^(N|P|C|G|X)_[0-9a-z]+$`)
 
 // runMC runs an MC module in its own scratch directory and returns the result with the exported JSON lines.
 func runMC(module string, consts map[string]string, timeout time.Duration, workers int) (*mcRun, []string, error) {
@@ -149,7 +149,9 @@ func bindPlaceholders(g *Gen, docs map[string]*Node) {
 		}
 	}
 	// C_i is the case variant of N_i: bind after the N_ names
-	late := func(k string) bool { return strings.HasPrefix(k, "C_") || strings.HasPrefix(k, "G_") }
+	late := func(k string) bool {
+		return strings.HasPrefix(k, "C_") || strings.HasPrefix(k, "G_") || strings.HasPrefix(k, "X_")
+	}
 	sort.SliceStable(keys, func(i, j int) bool { return !late(keys[i]) && late(keys[j]) })
 	for _, k := range keys {
 		if _, bound := g.Names.ToConcrete[k]; bound {
@@ -167,6 +169,16 @@ func bindPlaceholders(g *Gen, docs map[string]*Node) {
 			}
 			g.usedConcrete[v] = true
 			g.Names.Bind(k, v)
+			continue
+		}
+		if strings.HasPrefix(k, "X_") {
+			// X_i: a path whose string extends the path P_i
+			base, ok := g.Names.ToConcrete["P_"+k[2:]]
+			if !ok {
+				base = "/" + plainWords[g.r.Intn(len(plainWords))] + k[2:]
+				g.Names.Bind("P_"+k[2:], base)
+			}
+			g.Names.Bind(k, base+[]string{"/{id}", "s", "/sub", "{id}"}[g.r.Intn(4)])
 			continue
 		}
 		if k == "G_1" || k == "G_2" {
